@@ -16,22 +16,22 @@ import (
 // function (E1 return terms).  Two terms are compared by their canonical
 // string, which names functions and fields by their resolved objects.
 type Term struct {
-	Kind string // recv param role field addr deref call lit const conv assert op opaque
-	Name string // param name, role name, const value, operator, opaque text
-	Idx  int    // param index
-	Fn   *types.Func
-	Var  *types.Var
-	Type types.Type
-	Args []*Term // call: receiver first when HasRecv
-	Keys []string
+	Kind    string // recv param role field addr deref call lit const conv assert op opaque
+	Name    string // param name, role name, const value, operator, opaque text
+	Idx     int    // param index
+	Fn      *types.Func
+	Var     *types.Var
+	Type    types.Type
+	Args    []*Term // call: receiver first when HasRecv
+	Keys    []string
 	HasRecv bool
 }
 
-func tRecv() *Term            { return &Term{Kind: "recv"} }
-func tParam(i int) *Term      { return &Term{Kind: "param", Idx: i} }
-func tRole(n string) *Term    { return &Term{Kind: "role", Name: n} }
-func tAddr(x *Term) *Term     { return &Term{Kind: "addr", Args: []*Term{x}} }
-func tConst(v string) *Term   { return &Term{Kind: "const", Name: v} }
+func tRecv() *Term          { return &Term{Kind: "recv"} }
+func tParam(i int) *Term    { return &Term{Kind: "param", Idx: i} }
+func tRole(n string) *Term  { return &Term{Kind: "role", Name: n} }
+func tAddr(x *Term) *Term   { return &Term{Kind: "addr", Args: []*Term{x}} }
+func tConst(v string) *Term { return &Term{Kind: "const", Name: v} }
 func tField(x *Term, v *types.Var) *Term {
 	return &Term{Kind: "field", Var: v, Args: []*Term{x}}
 }
